@@ -250,12 +250,31 @@ NewRoots(have, roots, i) ==
   IF i > Len(roots) THEN <<>>
   ELSE IF roots[i] \in have THEN NewRoots(have, roots, i + 1)
   ELSE <<roots[i]>> \o NewRoots(have \cup {roots[i]}, roots, i + 1)
+\* handle_provided_imports 4894-4922: configured type imports (w.imports = sequence of [ref, specs]) whose referrer
+\* the graph does not know yet become GraphImport records (type resolution only) and their targets are loaded --
+\* whatever the graph kind -- after the roots, with the configuration file as referrer
+ConfiguredImports(w) == IF "imports" \in DOMAIN w THEN w.imports ELSE <<>>
+\* the records are keyed by specifier text: a repeated entry of one configuration file collapses into the first
+RECURSIVE DedupSeq(_, _, _)
+DedupSeq(sq, i, acc) == IF i > Len(sq) THEN acc
+                        ELSE DedupSeq(sq, i + 1, IF \E j \in DOMAIN acc : acc[j] = sq[i] THEN acc ELSE Append(acc, sq[i]))
+ImportDeps(specs0) == LET specs == DedupSeq(specs0, 1, <<>>) IN
+  [i \in DOMAIN specs |-> [text |-> specs[i] \o "#0", code |-> NONE, type |-> Ok(specs[i]), dyn |-> FALSE, attr |-> "none", lf |-> FALSE]]
+RECURSIVE LoadSpecs(_, _, _, _, _)
+LoadSpecs(st, ref, specs, i, o) ==
+  IF i > Len(specs) THEN st ELSE LoadSpecs(Load(st, specs[i], FALSE, o.isDynamic, ref, "none"), ref, specs, i + 1, o)
+RECURSIVE LoadImports(_, _, _, _)
+LoadImports(st, imps, i, o) ==
+  IF i > Len(imps) THEN st ELSE LoadImports(LoadSpecs(st, imps[i].ref, imps[i].specs, 1, o), imps, i + 1, o)
 BuildOn(w, g, roots, o) ==
   LET nr == NewRoots(SeqToSet(g.roots), roots, 1)
+      known == { g.imports[i].ref : i \in DOMAIN g.imports }
+      ni == SelectSeq(ConfiguredImports(w), LAMBDA im : im.ref \notin known)
       st0 == [EmptySt EXCEPT !.slots = g.slots, !.redirects = g.redirects, !.inDyn = o.isDynamic, !.npmSet = NpmOn(w)]
-      st == NpmFill(w, Drain(w, LoadRoots(st0, nr, 1, o), o))
+      st == NpmFill(w, Drain(w, LoadImports(LoadRoots(st0, nr, 1, o), ni, 1, o), o))
   IN IF st.div THEN [kind |-> g.kind, roots |-> g.roots \o nr, diverged |-> TRUE, sch |-> g.sch]
-     ELSE [g EXCEPT !.roots = g.roots \o nr, !.slots = st.slots, !.redirects = st.redirects]
+     ELSE [g EXCEPT !.roots = g.roots \o nr, !.slots = st.slots, !.redirects = st.redirects,
+                    !.imports = g.imports \o [i \in DOMAIN ni |-> [ref |-> ni[i].ref, deps |-> ImportDeps(ni[i].specs)]]]
 Build(w, roots, o) == BuildOn(w, Graph0(o.kind, w.sch), roots, o)
 
 \* Builder::reload 4750-4777
